@@ -225,7 +225,23 @@ def run(prog, rep, tier):
                     rep.ob('R03.2', ok, 'R03.2|%s|calls|%s' % (body.nkey, d),
                            ('%s calls %s' % (body.nkey, d)) + ('' if ok else ' -- not in the allowlist: the unauthenticated decrypt path must stay inside the fail-safe reader'),
                            body.loc(b.idx))
-    rep.floor('R03.2', ncallers, 4, 'call sites of the unauthenticated functions')
+    # a function reified as a pointer (`Self::load_in_cache_unauthenticated as fn(..)`) is a reference just like a call
+    for pkg in prog.crates:
+        for body in prog.crates[pkg].bodies:
+            for bl in body.blocks:
+                for i, st in enumerate(bl.stmts):
+                    if st.kind == 'assign' and st.rv.r == 'cast' and 'ReifyFnPointer' in st.rv.j.get('kind', ''):
+                        d = ((st.rv.j.get('op') or {}).get('k') or {}).get('fn', '')
+                        if pkg != 'mla' and d.startswith('mla::'):
+                            d = d[5:]
+                        if d in unauth_fns:
+                            ncallers += 1
+                            rep.fn(body)
+                            ok = pkg == 'mla' and allowed_callers[d](body)
+                            rep.ob('R03.2', ok, 'R03.2|%s|takes-pointer-to|%s' % (body.nkey, d),
+                                   ('%s takes a pointer to %s' % (body.nkey, d)) + ('' if ok else ' -- not in the allowlist: the unauthenticated decrypt path must stay inside the fail-safe reader'),
+                                   body.loc(bl.idx, i))
+    rep.floor('R03.2', ncallers, 3, 'call sites of / pointers to the unauthenticated functions')
     # the fail-safe encryption reader is constructed only by ArchiveFailSafeReader::from_config
     nctor = 0
     for pkg in prog.crates:
@@ -248,6 +264,25 @@ def run(prog, rep, tier):
                'normal reader %s::%s goes through authenticated %s' % (tr, m, want) if ok else
                '<EncryptionLayerInternal as %s>::%s does not call %s (anchor lost)' % (tr, m, want),
                bs[0].loc() if bs else '?')
+
+    # ---------------- R03.5 a failed tag comparison is an error for the caller of the normal reader (never skipped)
+    from .c04 import wrong_tag_swallows
+    fs_read = find_bodies(prog, 'mla', adt='layers::encrypt::EncryptionLayerFailSafeReader', name='read', trait='std::io::Read')
+    n_s, sites, bad = wrong_tag_swallows(prog, skip_keys=tuple(b.key for b in fs_read))
+    rep.floor('R03.5', n_s, 5, 'call sites of functions that may return AuthenticatedDecryptionWrongTag')
+    badk = {(b.key, blk.idx): okb for b, blk, okb in bad}
+    cnt = collections.Counter()
+    for (bk, bi), (b, blk) in sorted(sites.items()):
+        if any(bk == f.key for f in fs_read):
+            continue   # the repair reader stops there on purpose (C04)
+        rep.fn(b)
+        base = '%s|%s' % (b.nkey, blk.term.cmethod)
+        key = 'R03.5|%s#%d|wrong-tag-propagated' % (base, cnt[base])
+        cnt[base] += 1
+        okb = badk.get((bk, bi))
+        rep.ob('R03.5', okb is None, key, 'a wrong-tag error of %s is handed to the caller' % blk.term.cmethod if okb is None else
+               'a wrong-tag error returned by %s can reach an Ok(..) result of %s (at %s): the altered chunk is skipped and later bytes are returned at the wrong positions'
+               % (blk.term.cmethod, b.nkey, b.loc(okb)), b.loc(blk.idx))
 
     # ---------------- R03.3 chunk binding
     # build_nonce itself: the nonce contains the archive prefix and the 4 low-order bytes of the chunk counter (whatever the endianness --
@@ -310,7 +345,7 @@ def run(prog, rep, tier):
         for b in body.calls():
             if b.term.cdef in (INTERNAL + 'load_in_cache', INTERNAL + 'load_in_cache_unauthenticated'):
                 loads.append((body, b))
-    rep.floor('R03.3.load', len(loads), 4, 'chunk load call sites')
+    rep.floor('R03.3.load', len(loads), 2, 'chunk load call sites')
     for body, b in loads:
         key = 'R03.3|%s|%s|counter-set-before-load' % (body.nkey, b.term.cmethod)
         if body.name == 'new':
